@@ -160,8 +160,14 @@ def run(facts, R):
     rq = facts.body("message::Message::require_body_format")
     rqs = Sym(rq)
     for i, j, st in blocks_assigning_variant(rq, "std::result::Result", "Ok"):
-        fs = texts(facts_at(rq, rqs, facts, i))
-        ok = any("header.body_format Eq" in x and x.endswith("is True") for x in fs)
+        fl = facts_at(rq, rqs, facts, i)
+        fs = texts(fl)
+        from rules.common import norm_cmp
+        ok = False
+        for f in fl:
+            nc = norm_cmp(f["expr"], f["val"])
+            if nc and nc[0] == "Eq" and any(render(x).endswith("header.body_format") for x in nc[1:]):
+                ok = True
         R.check(ok, "format-guard", rq.path, "Ok iff header.body_format == expected", "require_body_format returns Ok under %s" % fs, st.get("span"), fs[-1][:80] if fs else None)
 
 
